@@ -221,18 +221,33 @@ func (env *SpecEnv) constVal(c *types.Const) SVal {
 }
 
 func (env *SpecEnv) findLocal(name string) *ssa.Alloc {
-	var best *ssa.Alloc
+	var live, all []*ssa.Alloc
 	for a := range env.fr.direct {
-		if a.Comment == name {
-			// prefer the one that is live in the current state
-			if _, ok := env.st.locals[a]; ok || best == nil {
-				if best == nil || a.Pos() < best.Pos() || !env.fr.direct[best] {
-					best = a
-				}
+		if a.Comment != name {
+			continue
+		}
+		all = append(all, a)
+		if env.fr.direct[a] {
+			if _, ok := env.st.locals[a]; ok {
+				live = append(live, a)
 			}
+		} else if _, ok := env.fr.regs[a]; ok {
+			live = append(live, a)
 		}
 	}
-	return best
+	pick := func(c []*ssa.Alloc) *ssa.Alloc {
+		var best *ssa.Alloc
+		for _, a := range c {
+			if best == nil || a.Pos() > best.Pos() {
+				best = a
+			}
+		}
+		return best
+	}
+	if len(live) > 0 {
+		return pick(live)
+	}
+	return pick(all)
 }
 
 func (env *SpecEnv) unary(x *EUn) SVal {
@@ -1155,7 +1170,7 @@ func (ex *Exec) heapsOfLvalue(fc *FuncContract, m Expr) map[string]string {
 	}
 	addType := func(t types.Type) {
 		ms := newModSet()
-		ex.modsOfType(t, ms)
+		ex.modsOfType(t, ms, false)
 		for n, s := range ms.heaps {
 			out[n] = s
 		}
